@@ -82,7 +82,7 @@ def serves(e): return [i for i in C if C[i]["engine"]==e]
 m={"version":1,"setup_cmd":"./setup.sh",
  "hooks":{"guard":"generated go build -overlay (no tagged source in the repository tree)",
           "enable":"run.sh regenerates /verif/build/ov/overlay.json from /repo's working tree with cmd/mcrewrite (rewritten index package + verifmc shim + hook files under /verif/hooks) and builds every check with go build -overlay",
-          "baseline_off_cmd":"cd /repo && go test -vet=off -count=1 ./...","source_commits":[],"add_only":True},
+          "baseline_off_cmd":"cd /repo && GOFLAGS=-mod=mod GOPROXY=off go test -vet=off -count=1 ./...","source_commits":[],"add_only":True},
  "engines":[
    {"name":"sched","path":"/verif/mc, /verif/explore/explore.go, /verif/cmd/mcrewrite","serves_properties":serves("sched"),"kind_free_text":"cooperative scheduler shim + deviation-bounded stateless explorer over the real index package, sharded over worker processes"},
    {"name":"crash","path":"/verif/crashfs","serves_properties":serves("crash"),"kind_free_text":"recording storage device, crash-image enumerator (operation boundaries, torn / zero-filled / stale-tail variants), fault injection"},
